@@ -9,13 +9,13 @@ S(ks) == [i \in 1..Len(ks) |-> P(ks[i])]
 \* well-formed and faulty server scripts (kinds only; the harness refines them to bytes)
 SelectScripts ==
   { S(<<>>), S(<<"eos">>), S(<<"exc">>), S(<<"hdr", "eos">>), S(<<"hdr", "exc">>), S(<<"hdr", "data", "eos">>),
-    S(<<"hdr", "data", "data", "eos">>), S(<<"data", "totals", "eos">>), S(<<"prog", "eos">>),
+    S(<<"hdr", "data", "end", "eos">>), S(<<"data", "totals", "end", "eos">>), S(<<"prog", "eos">>),
     S(<<"hdr", "prog", "exc">>), S(<<"prog", "profile", "tcols", "eos">>),
     <<PN("log", 2), P("eos")>>, <<P("hdr"), PN("pevents", 2), P("data"), P("eos")>>,
     S(<<"bad">>), S(<<"pong">>), S(<<"cut">>), S(<<"hdr", "trunc">>), S(<<"hdr", "garbage">>),
     S(<<"data", "cut">>), S(<<"eosEarly">>) }
 InsertScripts ==
-  { S(<<>>), S(<<"eos">>), S(<<"exc">>), S(<<"hdr", "eos">>), S(<<"hdr", "exc">>), S(<<"hdr", "prog", "eos">>),
+  { S(<<>>), S(<<"eos">>), S(<<"exc">>), S(<<"hdr", "eos">>), S(<<"hdr", "exc">>), S(<<"hdr", "prog", "end", "eos">>),
     S(<<"hdr", "prog", "exc">>), S(<<"prog", "hdr", "eos">>), <<P("hdr"), PN("log", 1), P("eos")>>,
     S(<<"bad">>), S(<<"hdr", "pong">>), S(<<"cut">>), S(<<"hdr", "cut">>), S(<<"hdr", "trunc">>),
     S(<<"eosEarly">>), S(<<"hdr", "eosEarly">>), S(<<"tcols", "hdr", "eos">>) }
